@@ -197,7 +197,7 @@ pub fn c04(args: &Args) -> i32 {
     }
     let run = Run::new(args, "exploration", 50.0, 1500.0);
     let b = Bounds { quick: run.quick() };
-    run.set_rule("(a) every program of F1-F6 (quick: F2,F3,F4,F5-union,F6-union; thorough: all) with <= K non-query clauses: ALL permutations of the non-query clauses (query clause last) and every single-clause duplication (adjacent / at end / query clause) x all small EDBs; each variant's answer must equal the original order's answer and R1. (b) all ordered pairs and triples over a pool of programs (complete constant-bound closure sub-family + shortest program of each family + programs redefining the same IDB names) executed on ONE reused IQLEngine: the last program's answer must equal a fresh engine's, and (c) the engine's stored base facts (as multisets) must be identical before and after every execution. non-trivial = distinct (program variant, EDB) / (sequence, EDB) with non-empty reference answer");
+    run.set_rule("(d) every ordered pair of the history pool on one engine, the first run under max_query_cost=1 (rejected by the cost guard where it costs anything), the second with the guard off: stored facts unchanged, second answer equal to a fresh engine's; (a) every program of F1-F6 (quick: F2,F3,F4,F5-union,F6-union; thorough: all) with <= K non-query clauses: ALL permutations of the non-query clauses (query clause last) and every single-clause duplication (adjacent / at end / query clause) x all small EDBs; each variant's answer must equal the original order's answer and R1. (b) all ordered pairs and triples over a pool of programs (complete constant-bound closure sub-family + shortest program of each family + programs redefining the same IDB names) executed on ONE reused IQLEngine: the last program's answer must equal a fresh engine's, and (c) the engine's stored base facts (as multisets) must be identical before and after every execution. non-trivial = distinct (program variant, EDB) / (sequence, EDB) with non-empty reference answer");
     run.assume("values are Int64 only; R1 is the reference for clause-set semantics");
     let fams: Vec<&str> = vec!["F1", "F2", "F3", "F4", "F5", "F6", "F8"];
     let progs: Vec<GenProg> = all_families(&b, &fams).into_iter().filter(|g| g.prog.clauses.len() >= 2).collect();
@@ -205,6 +205,47 @@ pub fn c04(args: &Args) -> i32 {
     let budget = if run.quick() { 10 } else { 60 };
     run.put("programs_leg_a", json!(progs.len()));
     run.put("max_permuted_clauses", json!(max_perm));
+    // leg (d): a query the cost guard rejects is history too: it must leave the stored facts alone and not colour later answers
+    {
+        let pool = history_pool(run.quick());
+        let edbs = history_edbs(run.quick());
+        let n = pool.len();
+        run.put("rejected_query_sequences", json!(n * n * edbs.len()));
+        run.par_for(n * n, threads(), |idx, l| {
+            let (ri, qi) = (idx / n, idx % n);
+            for (ei, edb) in edbs.iter().enumerate() {
+                let last = &pool[qi];
+                let fresh = run_engine(&last.text(), edb, CFG_DEFAULT, 1, 0);
+                let mut eng = fresh_engine(edb);
+                let facts0 = input_snapshot(&eng);
+                eng.set_max_query_cost(1);
+                let (rej, changed) = run_checked(&mut eng, &pool[ri].text());
+                eng.set_max_query_cost(0);
+                l.eval();
+                let (out, changed2) = run_checked(&mut eng, &last.text());
+                l.eval();
+                if matches!(rej, EngineOut::Err(_)) {
+                    l.nontrivial(fnv(format!("rej{ri}:{qi}:{ei}").as_bytes()));
+                }
+                l.outcome(fnv(format!("{:?}", answer_set(&out)).as_bytes()));
+                let case = json!({"leg": "d", "sequence": [pool[ri].text(), last.text()], "sequence_programs": [pool[ri].clone(), last.clone()], "edb": db_to_json(edb)});
+                if changed || changed2 {
+                    run.violation(
+                        &format!("{}:base_facts_changed_by_rejected_query", feature(&pool[ri])),
+                        case.clone(),
+                        format!("a program run under max_query_cost=1 ({}) or the program after it changed the stored base facts: before {:?} after {:?}", show_out(&rej), facts0, input_snapshot(&eng)),
+                    );
+                }
+                if answer_set(&out) != answer_set(&fresh) {
+                    run.violation(
+                        &format!("{}:engine_history_after_rejected_query", feature(last)),
+                        case,
+                        format!("after a program run under max_query_cost=1 ({}) the next program answers {} ; a fresh engine answers {}", show_out(&rej), show_out(&out), show_out(&fresh)),
+                    );
+                }
+            }
+        });
+    }
     let variants_total = std::sync::atomic::AtomicU64::new(0);
     run.par_for(progs.len(), threads(), |pi, l| {
         let g = &progs[pi];
@@ -326,8 +367,15 @@ fn replay(path: &std::path::Path) -> i32 {
         let seq: Vec<Program> = serde_json::from_value(c["sequence_programs"].clone()).expect("sequence");
         let mut eng = fresh_engine(&edb);
         let mut out = EngineOut::Err("unset".into());
-        for p in &seq {
+        for (k, p) in seq.iter().enumerate() {
+            let guarded = c["leg"] == "d" && k == 0;
+            if guarded {
+                eng.set_max_query_cost(1);
+            }
             let (o, changed) = run_checked(&mut eng, &p.text());
+            if guarded {
+                eng.set_max_query_cost(0);
+            }
             println!("{}\n -> {} (base facts changed: {changed})", p.text(), show_out(&o));
             bad |= changed;
             out = o;
